@@ -100,6 +100,19 @@ class C08(Prop):
             for p in pats:
                 yield (f"DFDEC {i} {L} {p}", "float" if d["dt"] in ("f32", "f64") else "int",
                        p != 0 and p != (1 << L) - 1)
+        # every field written into an all-ones scratch buffer: the absent marker, zero, an end of the range (a field
+        # must write every one of its bits, also when the pattern is all zeros)
+        for i in sch["df_order"]:
+            d = sch["dfs"][i]
+            isf = d["dt"] in ("f32", "f64")
+            zero = ("f0" if isf else "i%d" % int(eval_expr(d["bias"]) if d["bias"] else 0))
+            if isf and d["bias"]:
+                zero = "f%x" % f_bits(d["dt"], float(eval_expr(d["bias"])))
+            if d["inv"] is not None:
+                yield (f"DFENCF {i} N", "absent-into-ones", True)
+                yield (f"DFENCF {i} S {zero}", "zero-into-ones", True)
+            else:
+                yield (f"DFENCF {i} {zero}", "zero-into-ones", True)
         # the hand-written numeric fields (bias_m of 1059 / 1065 / 1230) are not df! rows: whole-message ops
         self._fam = self.bias_family(ctx)
         enc = [op for _, _, op in self._fam]
